@@ -20,6 +20,10 @@ fn main() {
             }
         }
     }
+    if prop == "C14" && args[2] == "--probe-worker" {
+        a5verif::checks::total::worker_main(&args[3], args[4].parse().unwrap(), args[5].parse().unwrap());
+        std::process::exit(0);
+    }
     if args[2] == "--replay" {
         let body = std::fs::read_to_string(&args[3]).expect("cannot read replay file");
         let v: serde_json::Value = serde_json::from_str(&body).expect("replay file is not JSON");
